@@ -18,12 +18,16 @@ def check(tier, seed):
                       INSTANCE_NOTE + "the Fock representation (operator -> matrix on a truncated Fock space, restricted to states at distance > order x degree from the edge) is "
                       "multiplicative and adjoint-preserving on those states because order-n terms move occupations by at most n x degree (locality lemma, not mechanised)",
                       "A-SY1/A-SY2: sympy xreplace / simplify / collect_const / doit are value-preserving on coefficient expressions"]
-    d.not_decided += ["NumberOrderedForm addition, adjoint, from_expr / as_expr, _poly_simplify: bounded battery (C08) only",
+    d.not_decided += ["NumberOrderedForm addition, adjoint, from_expr / as_expr, _combine_operators, _poly_simplify: bounded battery (C08) only",
+                      "solve_scalar with diagonal=True returns R - R^dagger: that this solves the positive-shift terms uses Hermiticity of Y and the adjoint of NumberOrderedForm (battery)",
                       "the wiring of block_diagonalize for operator input (H_eval, post-simplification): bounded battery only"]
     d.explanation = ("U^dagger U = 1 and U^dagger H U = H_tilde *within the operator algebra* are the C01/C02 theorems instantiated at the algebra of number-ordered forms, "
                      "whose multiplication is proved faithful on Fock states (C08 units re-run here).  Agreement with block-diagonalized truncated matrices is an instance of "
                      "naturality (the Fock representation preserves the kept / eliminated split: number-conserving terms are diagonal in the Fock basis) together with the "
-                     "solver contracts of second_quantization.py when present in this run.")
+                     "solver contracts of second_quantization.py: solve_scalar is proved, for an arbitrary term (symbolic powers, uninterpreted coefficient and energy functions of the occupations, "
+                     "concrete mode layout), to satisfy H_ii V - V H_jj = Y on every occupation state whenever the two coupled levels differ in energy; solve_sylvester_2nd_quant fills "
+                     "each entry from the scalar problem of its row and column energies (upper triangle of a diagonal block by minus the adjoint); apply_mask_to_operator / filter_terms "
+                     "with keep=True and keep=False are complementary projections on terms.")
     d.run_battery("nof_battery.py", ["secondq"], "6 models (anharmonic boson, two bosons with squeezing, Jaynes-Cummings with counter-rotating terms, three fermions with pairing, "
                   "spin + two fermions + boson, matrix-valued two-block) + 2 operator-valued masks incl. a symbolic power; orders <= 2 (quick) / 3 (thorough); Fock cutoff 7-14; "
                   "interior states only", timeout=3000)
